@@ -132,7 +132,7 @@ func (x *Run) binop(fr *Frame, st *State, op token.Token, a, b Val, ty types.Typ
 	case SStr:
 		switch op {
 		case token.ADD:
-			r := Val{T: app("concat", a.T, b.T), S: SStr, Ty: ty}
+			r := Val{T: app("strconcat", a.T, b.T), S: SStr, Ty: ty}
 			st.assume(eq(app("strlen", r.T), fmt.Sprintf("(+ %s %s)", app("strlen", a.T), app("strlen", b.T))))
 			return r
 		case token.LSS, token.GTR, token.LEQ, token.GEQ:
@@ -431,7 +431,7 @@ func (x *Run) doSelect(fr *Frame, st *State, ins *ssa.Select, outs *[]Outcome) [
 		if idx >= 0 {
 			sst := ins.States[idx]
 			ch := x.val(fr, s, sst.Chan)
-			closed := sel(x.arr(s, x.chClosedArr(sst.Chan.Type())), ch.T)
+			closed := sel(x.arr(s, x.chClosedFor(ch, sst.Chan.Type())), ch.T)
 			if sst.Dir == types.SendOnly {
 				x.mayPanic(fr, s, not(closed), "send-on-closed", ins, outs)
 				s.events = append(s.events, Event{Name: "send", Args: []Val{ch, x.val(fr, s, sst.Send)}})
@@ -650,6 +650,10 @@ func (x *Run) enterLoopHeader(fr *Frame, from, to *ssa.BasicBlock, st *State, lp
 		if ann != nil && ann.Inv != nil {
 			x.checkLoopInv(fr, st, lp, ann, "preserve")
 		}
+		if ann != nil && ann.Body != nil {
+			ba := &LoopAnn{Inv: ann.Body, Args: ann.BodyArgs}
+			x.checkLoopInv(fr, st, lp, ba, "iteration")
+		}
 		return nil
 	}
 	if ann != nil && ann.Inv != nil {
@@ -717,7 +721,7 @@ func (x *Run) enterLoopHeader(fr *Frame, from, to *ssa.BasicBlock, st *State, lp
 		}
 	}
 	if ms.top {
-		x.havocAll(st)
+		x.havocAllExcept(st, ms.preserves)
 	} else {
 		for _, name := range sortedKeys(ms.arrs) {
 			x.havocArr(st, name)
@@ -727,6 +731,7 @@ func (x *Run) enterLoopHeader(fr *Frame, from, to *ssa.BasicBlock, st *State, lp
 		x.assumeLoopInv(fr, st, lp, ann)
 	}
 	fr.cut[to] = true
+	st.events = append(st.events, Event{Name: fmt.Sprintf("loop:%s#%d", fr.fn.String(), lp.ordinal)})
 	st.trace = append(st.trace, fmt.Sprintf("loop%d", lp.ordinal))
 	return x.runBlock(fr, to, x.firstNonPhi(to), st)
 }
@@ -735,6 +740,7 @@ type loopMod struct {
 	cells map[*Cell]bool
 	arrs  map[string]bool
 	top   bool
+	preserves []string
 }
 
 // loopMod computes what the loop body may modify: cells (by the Alloc values
@@ -750,6 +756,7 @@ func (x *Run) loopMod(fr *Frame, lp *loop) *loopMod {
 		}
 	}
 	lm.top = ms.Top
+	lm.preserves = ms.Preserves
 	for a := range ms.Arrs {
 		lm.arrs[a] = true
 	}
